@@ -1,6 +1,8 @@
 //! Per-property checks.
 use crate::driver::{CheckCtx, Found, PropMeta, Violation};
 
+pub mod c03;
+pub mod c04;
 pub mod c19;
 pub mod c20;
 pub mod histprops;
@@ -13,6 +15,8 @@ pub struct PropEntry {
 
 pub fn registry() -> Vec<PropEntry> {
     vec![
+        PropEntry { meta: &c03::META, check: c03::check, replay: c03::replay },
+        PropEntry { meta: &c04::META, check: c04::check, replay: c04::replay },
         PropEntry { meta: &c19::META, check: c19::check, replay: c19::replay },
         PropEntry { meta: &c20::META, check: c20::check, replay: c20::replay },
         PropEntry { meta: &histprops::C01_META, check: |c| histprops::hist_check(c, &histprops::C01), replay: |_, _, v| histprops::hist_replay(&histprops::C01, v) },
